@@ -235,6 +235,8 @@ func genC12(g *Rng, tier string, emit func(Op)) {
 			t2 := cloneTree(tree).(T)
 			alt.f(t2["rangeproofs"].(T)["1"].([]any)[0].(T))
 			emit(verifyDOp(kp.id, t2, ctx, nonce, false, "rp-descriptor-"+alt.name, "reject"))
+			// the same message decoded into an object that has just verified the honest one
+			emit(verifyDOp(kp.id, t2, ctx, nonce, false, "rp-descriptor-"+alt.name+"-into-used-object", "reject").with("decode_after", cloneTree(tree)).with("fkey", "C12/decoded-into-used-object"))
 		}
 		_ = rp0
 		// transplants: to another hidden index, to a disclosed index, to a non-existent index, to
@@ -336,6 +338,30 @@ func genC12(g *Rng, tier string, emit func(Op)) {
 			tq := cloneTree(tp).(T)
 			tq["rangeproofs"].(T)["2"] = []any{cloneTree(junk)}
 			emit(verifyDOp(kp.id, tq, ctx, nonce, false, "rp-junk-unextractable-2", "reject").with("fkey", "C12/structure-cache-after-error"))
+		}
+		// in memory the range proof object has a field for the response of m, which the wire form does
+		// not carry (the verifier takes the attribute's own response): a range proof made for ANOTHER
+		// value with its own randomiser, that field filled in by the forger
+		{
+			claim, _ := rangeproof.NewStatement(rangeproof.GreaterOrEqual, new(big.Int).Add(m1, bi(1000)))
+			if ps, err := claim.ProofStructure(1); err == nil {
+				fake := new(big.Int).Add(m1, bi(5000))
+				contribs, commit, err := ps.CommitmentsFromSecrets(pk, fake, g.bits(int(pk.Params.LmCommit)-1))
+				b, err2 := cred.CreateDisclosureProofBuilder([]int{3}, nil, false)
+				if err == nil && err2 == nil {
+					c0, err := b.Commit(map[string]*big.Int{"secretkey": g.bits(int(pk.Params.LmCommit) - 1)})
+					if err != nil {
+						panic(err)
+					}
+					c := gabi.VerifCreateChallenge(ctx, nonce, append(append([]*big.Int{}, c0...), contribs...), false)
+					pd := b.CreateProof(c).(*gabi.ProofD)
+					rp := ps.BuildProof(commit, c)
+					pd.RangeProofs = map[int][]*rangeproof.Proof{1: {rp}}
+					tm := proofDTree(pd)
+					tm["rangeproofs"].(T)["1"].([]any)[0].(T)["m_response"] = I(rp.MResponse)
+					emit(verifyDOp(kp.id, tm, ctx, nonce, false, "rp-own-m-response-in-memory", "reject").with("direct", true).with("fkey", "C12/own-m-response"))
+				}
+			}
 		}
 		// range proof removed: the remaining proof no longer matches its challenge
 		t4 := cloneTree(tree).(T)
